@@ -87,9 +87,14 @@ func TestC07(t *testing.T) {
 		if rapid.Bool().Draw(t, "hasExtra") {
 			extra = sdk.NewCoins(sdk.NewCoin(Denom, sdk.NewIntFromBigInt(genAmount(t, "extra", 20, false))))
 		}
+		offDenom := ""
+		if rapid.IntRange(0, 3).Draw(t, "sendSwitch") == 0 {
+			offDenom = c07Denoms[rapid.IntRange(0, 2).Draw(t, "offDenom")]
+			v.App.BankKeeper.SetParams(v.Ctx, v.App.BankKeeper.GetParams(v.Ctx).SetSendEnabledParam(offDenom, false))
+		}
 		sender := v.NextFresh()
 		makeCVA(v, sender, ov, start, end, extra)
-		hist := []string{fmt.Sprintf("sender ov=%s start=%d end=%d now=%d extra=%s", ov, start, end, nowS, extra)}
+		hist := []string{fmt.Sprintf("sender ov=%s start=%d end=%d now=%d extra=%s bank transfers switched off for %q", ov, start, end, nowS, extra, offDenom)}
 
 		delegated := false
 		if rapid.IntRange(0, 2).Draw(t, "delegate") == 0 {
@@ -231,6 +236,15 @@ func TestC07(t *testing.T) {
 			if toExists {
 				mustAccept = false
 				toBefore = v.AccountBytes(to)
+			}
+			if offDenom != "" {
+				// the bank has transfers of one denomination switched off (a governance parameter): coins of that
+				// denomination cannot be moved to a new account, everything else can
+				if want.AmountOf(offDenom).IsPositive() {
+					mustAccept = false
+				} else if mustAccept {
+					classes["moved_while_another_denomination_is_switched_off"] = true
+				}
 			}
 			res := v.Run(msg)
 			hist = append(hist, fmt.Sprintf("now=%d %T from=%s to=%s(existed=%v) want=%s locked=%s ok=%v err=%v", now.Unix(), msg, from, to, toExists, want, locked, res.OK(), res.Err))
